@@ -18,6 +18,10 @@ representative per class of its input partition, in a closed stub world:
   normalisation (sorting, de-duplication, case folding, stripping) of a value on its way to the library is visible,
 * sets of the evaluated program iterate in one fixed arbitrary order (HSet): a result that depends on set order is the
   same in every run of the check, whatever PYTHONHASHSEED is,
+* laziness as in the language: a generator function returns a generator object whose body is interpreted only while
+  it is consumed (GenStub, hand-over thread), generator expressions and zip / map / filter / enumerate / reversed are
+  lazy too - an edit that happens only inside a lazy object happens as far as the object is consumed, not where it is
+  written,
 * state: the calls of a sequence are evaluated in one world (memoising decorators and module-level containers live in
   it) and compared with the same calls in fresh worlds; mutable parts of a result are emptied by the 'caller' between
   the calls.  Tests and handlers that were taken are recorded as events - used only to explain a violation (the test
@@ -39,7 +43,7 @@ from typing import Any, Callable, Dict, List, Optional, Sequence, Tuple
 
 from checks.c03 import K
 from sa.blockeval import BlockEval, Unknown, _Stop
-from sa.consteval import _BUILTINS, _MODULE_FUNCS, Folder, NotConst
+from sa.consteval import _BUILTINS, _MODULE_FUNCS, Folder, NotConst, _bind
 
 M = "transformer"
 MAGIC = "#stub-mmcif "
@@ -60,6 +64,15 @@ class World:
         self.globals: Dict[str, Any] = {}
         self.line: Optional[int] = None  # line of the statement being evaluated (for sites)
         self.categories: List[Any] = []  # category objects the adapter handed out (explanations: whose list was edited)
+        self.gens: List[Any] = []  # generator objects of the evaluated program (suspended ones are closed when the evaluation ends)
+
+    def close_generators(self) -> None:
+        for g in list(self.gens):
+            try:
+                g.close()
+            except BaseException:
+                pass
+        self.gens = []
 
     def shutdown(self) -> None:
         """Interpreter exit: handles the program left open are flushed and closed."""
@@ -832,10 +845,23 @@ def _real_builtin(name: str) -> Callable:
             return next(it, *default)
 
         return nxt
-    return lambda *a, **k: _bounded(real(*a, **k))
+    if name == "range":
+        return lambda *a, **k: _bounded(real(*a, **k))
+    return lambda *a, **k: _lazy_bounded(real(*a, **k))  # zip / map / filter / enumerate / reversed are lazy in the language: never consumed = never run
 
 
 _BOUND = 100000
+
+
+def _lazy_bounded(it):
+    """The lazy object itself (elements are produced while it is consumed), cut at a bound so that an evaluation always ends."""
+    try:
+        for k, x in enumerate(it):
+            if k > _BOUND:
+                raise Unknown("unbounded iteration")
+            yield x
+    except NotConst as ex:
+        raise Unknown(f"lazy iteration: {ex}")
 
 
 def _bounded(it) -> list:
@@ -871,6 +897,34 @@ class XFolder(Folder):
         if type(v) is frozenset:
             return HFrozenSet(v)
         return v
+
+    def _f_GeneratorExp(self, n):
+        """A generator expression is lazy: only its first iterable is evaluated where it is written; elements, conditions and
+        inner iterables are evaluated while it is consumed (and see the names as they are bound then); never consumed = never run."""
+        gens = n.generators
+        first = iter(self.fold(gens[0].iter))
+
+        def rec(i, env, src=None):
+            if i == len(gens):
+                yield self.child(env).fold(n.elt)
+                return
+            g = gens[i]
+            for item in src if src is not None else iter(self.child(env).fold(g.iter)):
+                env2 = dict(env)
+                _bind(g.target, item, env2)
+                s2 = self.child(env2)
+                if all(s2.fold(c) for c in g.ifs):
+                    for k in getattr(s2, "_walrus", ()):
+                        env2[k] = s2.local[k]
+                    yield from rec(i + 1, env2)
+
+        def run():
+            try:
+                yield from rec(0, {}, first)
+            except NotConst as ex:
+                raise Unknown(f"`{norm_(n)}`: {ex}")
+
+        return run()
 
     def _f_Name(self, n):
         if n.id not in self.local and n.id in _XB and _XB[n.id] is not None:
@@ -1059,7 +1113,19 @@ class Runtime:
                 raise Unknown(f"decorator of {fn.name} is not modelled")
             return bad
 
+        lazy = _is_generator(fn)
+
         def call(*args, **kw):
+            if lazy and not memo:
+                # a generator function: the call binds the arguments and runs nothing; the body runs while the result is iterated
+                env = dict(self.module_env)
+                env.update(closure or {})
+                self.bind(fn, args, kw, env)
+                g = GenStub(self, fn, args, kw, closure)
+                self.world.gens.append(g)
+                return g
+            if lazy:
+                raise Unknown(f"memoised generator function {fn.name}")
             if memo:
                 key = (fn.name, args, tuple(sorted(kw.items())))
                 hash(key)
@@ -1104,7 +1170,7 @@ class Runtime:
                     raise Unknown(f"default of {fn.name}({p}): {ex}")
         return out
 
-    def call_function(self, fn: ast.FunctionDef, args: Sequence[Any], kw: Dict[str, Any], closure: Optional[Dict[str, Any]] = None) -> Any:
+    def call_function(self, fn: ast.FunctionDef, args: Sequence[Any], kw: Dict[str, Any], closure: Optional[Dict[str, Any]] = None, gen: Any = None) -> Any:
         if self.depth > 12:
             raise Unknown("call depth")
         env = dict(self.module_env)
@@ -1112,6 +1178,7 @@ class Runtime:
         env.update(self.bind(fn, args, kw, env))
         self.entered[fn.name] = fn
         ev = FuncEval(self, env)
+        ev.gen = gen
         self.depth += 1
         try:
             kind, val = ev.run(_body(fn))
@@ -1120,6 +1187,84 @@ class Runtime:
         if kind in ("continue", "break"):
             raise Unknown(f"`{kind}` outside a loop")
         return val if kind == "return" else None
+
+
+def _is_generator(fn: ast.FunctionDef) -> bool:
+    stack: List[ast.AST] = list(fn.body)
+    while stack:
+        n = stack.pop()
+        if isinstance(n, (ast.Yield, ast.YieldFrom)):
+            return True
+        if isinstance(n, (ast.FunctionDef, ast.AsyncFunctionDef, ast.Lambda, ast.ClassDef)):
+            continue
+        stack.extend(ast.iter_child_nodes(n))
+    return False
+
+
+class _GenClose(BaseException):
+    pass
+
+
+class GenStub:
+    """Generator object of the evaluated program, with the laziness of the language: nothing of the body runs before the
+    first next(), the body is suspended at every `yield` until the consumer asks again, a generator that is never iterated
+    never runs.  The body is interpreted in a thread of its own that runs only while the consumer waits in next() (strict
+    hand-over, never two at a time), so effects of body and consumer interleave exactly as they do in the program."""
+
+    def __init__(self, rt: "Runtime", fn: ast.FunctionDef, args, kw, closure):
+        import threading
+
+        self.rt, self.fn, self.args, self.kw, self.closure = rt, fn, args, kw, closure
+        self.started = self.done = self.closing = False
+        self.item: Any = None
+        self.exc: Optional[BaseException] = None
+        self.to_gen, self.to_consumer = threading.Semaphore(0), threading.Semaphore(0)
+
+    def __iter__(self):
+        return self
+
+    def __next__(self):
+        import threading
+
+        if self.done:
+            raise StopIteration
+        if not self.started:
+            self.started = True
+            threading.Thread(target=self._run, daemon=True).start()
+        else:
+            self.to_gen.release()
+        self.to_consumer.acquire()
+        if self.exc is not None:
+            e, self.exc = self.exc, None
+            raise e
+        if self.done:
+            raise StopIteration
+        return self.item
+
+    def _run(self) -> None:
+        try:
+            self.rt.call_function(self.fn, self.args, self.kw, self.closure, gen=self)
+        except _GenClose:
+            pass
+        except BaseException as ex:  # the program's exception (or 'not evaluable'): it surfaces in the consumer's next()
+            self.exc = ex
+        self.done = True
+        self.to_consumer.release()
+
+    def emit(self, v: Any) -> None:
+        """`yield v` (runs in the generator's thread): hand the value over and wait for the next request."""
+        self.item = v
+        self.to_consumer.release()
+        self.to_gen.acquire()
+        if self.closing:
+            raise _GenClose()
+
+    def close(self) -> None:
+        if self.started and not self.done:
+            self.closing = True
+            self.to_gen.release()
+            self.to_consumer.acquire()
+        self.done = True
 
 
 def _body(fn: ast.FunctionDef) -> List[ast.stmt]:
@@ -1131,6 +1276,7 @@ class FuncEval(BlockEval):
         super().__init__(rt.repo, M, env, max_steps=20000)
         self.rt = rt
         self.exc: List[BaseException] = []
+        self.gen: Any = None  # the generator object whose body this is
 
     def fold(self, e: ast.AST) -> Any:
         f = XFolder(self.repo, self.module, self.env)
@@ -1190,7 +1336,15 @@ class FuncEval(BlockEval):
         return False
 
     def _stmt(self, st: ast.stmt) -> None:
-        if isinstance(st, ast.With):
+        if isinstance(st, ast.Expr) and isinstance(st.value, (ast.Yield, ast.YieldFrom)):
+            if self.gen is None:
+                raise Unknown("`yield` outside a generator body")
+            if isinstance(st.value, ast.Yield):
+                self.gen.emit(self.fold(st.value.value) if st.value.value is not None else None)
+            else:
+                for v in self.fold(st.value.value):
+                    self.gen.emit(v)
+        elif isinstance(st, ast.With):
             mgrs = []
             try:
                 for it in st.items:
@@ -1375,7 +1529,10 @@ def evaluate(repo, tree: ast.Module, fname: str, args: Sequence[Any], kw: Dict[s
         rt = Runtime(repo, tree, world, overrides, cov, entered)
         if fname not in rt.funcs:
             return Outcome("unknown", f"function {fname} not found", world)
-        return Outcome("return", rt.module_env[fname](*args, **kw), world)  # through its decorators (a memoised anchor is called as its callers call it)
+        r = rt.module_env[fname](*args, **kw)  # through its decorators (a memoised anchor is called as its callers call it)
+        if isinstance(r, GenStub):
+            return Outcome("unknown", f"{fname} is a generator function", world)
+        return Outcome("return", r, world)
     except Unknown as ex:
         return Outcome("unknown", str(ex), world)
     except SystemExit as ex:
@@ -1384,6 +1541,8 @@ def evaluate(repo, tree: ast.Module, fname: str, args: Sequence[Any], kw: Dict[s
         return Outcome("unknown", "recursion", world)
     except Exception as ex:  # raised by the evaluated program (an interpreted builtin or a stub that models an error)
         return Outcome("raise", _scrub(f"{type(ex).__name__}: {ex}")[:160], world)
+    finally:
+        world.close_generators()
 
 
 def _scrub(s: str) -> str:
@@ -1824,6 +1983,8 @@ def _judge_replace(o: Outcome, want_doc, want_map, cat, col, text: Optional[str]
         return f"the first component {_short(o.value[0])} is not the serialised document"
     d = doc_diff(got, want_doc, cat, None, col)
     if d is not None:
+        if o.value[1] == want_map and _find(got, cat) and _find(want_doc, cat) and _find(got, cat)[1] == _find(want_doc, cat)[1]:
+            d += f" - the returned mapping {_short(want_map)} is the first-seen mapping, but the item is not its image: a cell was substituted more than once (substitutions applied one after the other on the live column instead of at once per cell) or not at all"
         return d + _row_hint(o, got, want_doc, cat)
     if o.value[1] != want_map:
         return f"the returned mapping is {o.value[1]!r}, the substitution that was applied is {want_map!r}"
@@ -1998,6 +2159,8 @@ def check_cli(chk, fi) -> Optional[str]:
                     o = Outcome("unknown", "recursion", w)
                 except Exception as ex:
                     o = Outcome("raise", _scrub(f"{type(ex).__name__}: {ex}")[:160], w)
+                finally:
+                    w.close_generators()
                 if o.kind == "unknown":
                     why = why or f"{tag}: {o.value}"
                     continue
